@@ -570,7 +570,15 @@ func c17OracleRun(cs c17Case, decoded []cogyaml.Veneers, wantStatus string, want
 			if allBefore {
 				for _, a := range after {
 					if a.wt != "" {
-						setFail(fmt.Sprintf("FAIL wt-broken(%s): builder %s: %s", who, a.key, a.wt))
+						why := a.wt
+						if i := strings.LastIndexByte(why, ':'); i >= 0 {
+							why = why[i+1:]
+						}
+						place := "option"
+						if strings.HasPrefix(a.wt, "constructor") {
+							place = "constructor"
+						}
+						setFail(fmt.Sprintf("FAIL wt-broken(%s/%s/%s): builder %s: %s", who, place, why, a.key, a.wt))
 						break
 					}
 				}
@@ -583,6 +591,11 @@ func c17OracleRun(cs c17Case, decoded []cogyaml.Veneers, wantStatus string, want
 	stats = strings.Join(statParts, ",")
 	if fail != "" {
 		if len(sharing) > 0 {
+			// the class (text before the first ':') says so too, so that failures with and without
+			// previously shared pointers are never folded into one class
+			if i := strings.Index(fail, "):"); i >= 0 {
+				fail = fail[:i] + "/after-" + strings.Join(sharing, "+") + fail[i:]
+			}
 			fail += " [pointers-shared-by=" + strings.Join(sharing, "+") + "]"
 		}
 		return fail, stats
@@ -637,7 +650,7 @@ func c17CheckBuilderStep(st vStep, who string, before, after []bSnap, sel []bool
 				if cp.nFact != b.nFact {
 					what = "factories"
 				}
-				setFail(fmt.Sprintf("FAIL contract-duplicate(%s): the copy of %s differs from the original in its %s", who, b.key, what))
+				setFail(fmt.Sprintf("FAIL contract-duplicate(%s/%s): the copy of %s differs from the original in its %s", who, what, b.key, what))
 				return
 			}
 			ex := st.b.Duplicate.ExcludeOptions
@@ -658,7 +671,7 @@ func c17CheckBuilderStep(st vStep, who string, before, after []bSnap, sel []bool
 					if want[j].hasDflt && !cp.opts[j].hasDflt {
 						what = "default"
 					}
-					setFail(fmt.Sprintf("FAIL contract-duplicate(%s): option %s of the copy of %s lost/changed its %s", who, want[j].name, b.key, what))
+					setFail(fmt.Sprintf("FAIL contract-duplicate(%s/option-%s): option %s of the copy of %s lost/changed its %s", who, what, want[j].name, b.key, what))
 					return
 				}
 			}
@@ -792,7 +805,7 @@ func c17CheckOptionContract(st vStep, who, bkey string, old optSnap, outs []optS
 			if old.hasDflt && !outs[1].hasDflt {
 				what = "default"
 			}
-			setFail(fmt.Sprintf("FAIL contract-duplicate(%s): the copy of option %s lost/changed its %s", who, where, what))
+			setFail(fmt.Sprintf("FAIL contract-duplicate(%s/%s): the copy of option %s lost/changed its %s", who, what, where, what))
 		}
 	case "array_to_append", "map_to_index", "unfold_boolean", "struct_fields_as_arguments", "struct_fields_as_options", "disjunction_as_options", "rename_arguments", "add_comments":
 		for _, o := range outs {
